@@ -1,7 +1,7 @@
 """R5 driver: targets, abstract inputs, oracles (written from the mathematical definitions), comparison."""
 import itertools
 
-from . import core, r2
+from . import core, r2, tests
 from .core import Finding
 from .poly import Poly
 from .r5 import (
@@ -348,6 +348,19 @@ def compare(it, st, got, exp):
         if not (g[0] == "enum" and g[2] == "Some"):
             raise Mismatch("returned None/other, expected Some(..)")
         return compare(it, st, g[3][0], exp[1])
+    if isinstance(exp, tuple) and exp and exp[0] == "ok":
+        g = it.deref_all(st, got)
+        if not (g[0] == "enum" and g[2] == "Ok"):
+            raise Mismatch("expected Ok(..)")
+        return compare(it, st, g[3][0], exp[1])
+    if isinstance(exp, tuple) and exp and exp[0] == "err_original":
+        g = it.deref_all(st, got)
+        if not (g[0] == "enum" and g[2] == "Err"):
+            raise Mismatch("expected Err(..)")
+        e = it.deref_all(st, g[3][0])
+        if e[0] == "struct" and "original" in e[2]:
+            return compare(it, st, e[2]["original"], exp[1])
+        raise Mismatch("the error value does not carry the original argument")
     if isinstance(exp, tuple) and exp and exp[0] == "sign":
         g = it.deref_all(st, got)
         if g[0] != "sign":
@@ -1050,3 +1063,170 @@ def shift_targets(facts):
 
 def check_shifts(ctx, res):
     run_targets(ctx, res, shift_targets, "R5-shift", 70, "R5: the 72 BigInt shift leaves keep the sign, shift the magnitude, add the rounding increment to negative right shifts and leave a canonical value (zero result -> NoSign)")
+
+
+# ------------------------------------------------------------------------------------------
+# primitive conversions (C08)
+
+
+def o_toprim(ty):
+    signed = ty in SIGNED
+    bits = {"8": 8, "16": 16, "32": 32, "64": 64, "128": 128, "size": 64}[ty[1:]]
+
+    def f(c):
+        s, A = c.sm(1)
+        if s == 0:
+            return ("some", Poly())
+        if s > 0:
+            key = "fits_%s(%r)" % (ty, A)
+            if key not in c.st.bools:
+                raise Mismatch("the magnitude was never narrowed to %s" % ty)
+            return ("some", A) if c.st.bools[key] else ("none",)
+        if not signed:
+            return ("none",)
+        uty = "u" + ty[1:]
+        key = "fits_%s(%r)" % (uty, A)
+        # on the Equal path A has been substituted by the constant 2^(bits-1)
+        lim = Poly.const(1 << (bits - 1))
+        if A.is_const():
+            return ("some", -A) if A.const_value() <= (1 << (bits - 1)) else ("none",)
+        keys = [k for k in c.st.bools if k.startswith("fits_%s(" % uty)]
+        if not keys:
+            raise Mismatch("the magnitude was never narrowed to %s" % uty)
+        if not c.st.bools[keys[0]]:
+            return ("none",)
+        if (repr(A), repr(lim)) in c.st.lt:
+            return ("some", -A)
+        if (repr(lim), repr(A)) in c.st.lt:
+            return ("none",)
+        raise Mismatch("|a| was never compared with 2^%d" % (bits - 1))
+
+    return f
+
+
+def o_from_signed(c):
+    v = c.init_val(1)
+    if all(x > 0 for x in v.t.values()) or v.is_zero():
+        return ("some", v)
+    if all(x < 0 for x in v.t.values()):
+        return ("none",)
+    raise Mismatch("sign of the primitive never tested")
+
+
+def o_from_unsigned(c):
+    return ("some", c.init_val(1))
+
+
+def o_tryfrom_biguint(c):
+    s, A = c.sm(1)
+    if s < 0:
+        return ("err_original", c.init_val(1))
+    return ("ok", A)
+
+
+def conversion_targets(facts):
+    out = []
+    for b in facts.bodies:
+        if b.trait == "num_traits::ToPrimitive" and b.self_ty == "bigint::BigInt" and b.name in ("to_i64", "to_i128", "to_u64", "to_u128"):
+            out.append((b, o_toprim(b.name[3:]), "return", "Some(a) iff a fits the target type (MIN edge included)"))
+        if b.trait == "num_traits::FromPrimitive" and b.self_ty == "biguint::BigUint" and b.name in ("from_i64", "from_i128"):
+            out.append((b, o_from_signed, "return", "Some(n) iff n >= 0"))
+        if b.trait == "num_traits::FromPrimitive" and b.self_ty == "biguint::BigUint" and b.name in ("from_u64", "from_u128"):
+            out.append((b, o_from_unsigned, "return", "Some(n)"))
+        if b.trait == "core::convert::TryFrom" and b.self_ty == "biguint::BigUint" and b.trait_args == ["bigint::BigInt"]:
+            out.append((b, o_tryfrom_biguint, "return", "Ok(|a|) for a >= 0, Err carrying a itself otherwise"))
+    return out
+
+
+def check_conversions(ctx, res):
+    run_targets(ctx, res, conversion_targets, "R5-conversion", 9, "R5: BigInt::to_{i64,i128,u64,u128} return Some(a) exactly when a fits (sign gates and the MIN edge), BigUint::from_iN rejects negatives, TryFrom<BigInt> for BigUint returns the argument itself in Err")
+
+
+def check_tryfrom_err_carries_input(ctx, res, config="all"):
+    """by-value TryFrom<BigInt>/<BigUint> for primitives: the closure given to map_err captures the argument and wraps exactly it"""
+    facts = ctx.facts(config)
+    n = 0
+    for b in facts.bodies:
+        if b.trait != "core::convert::TryFrom" or b.name != "try_from" or not b.trait_args:
+            continue
+        src = b.trait_args[0]
+        if src not in ("bigint::BigInt", "biguint::BigUint") or b.self_ty in ("biguint::BigUint", "bigint::BigInt"):
+            continue
+        n += 1
+        key = b.path
+        errs = []
+        clos = [(i, si, s) for i, si, s in b.stmts() if s["k"] == "assign" and s["rv"]["k"] == "aggregate" and s["rv"].get("akind") == "closure"]
+        me = [(i, t) for i, t in b.calls() if core.callee_name(t) == "map_err"]
+        if len(clos) != 1 or len(me) != 1:
+            errs.append("expected `try_from(&value).map_err(|_| TryFromBigIntError::new(value))`")
+        else:
+            rv = clos[0][2]["rv"]
+            caps = [core.op_place(o) for o in rv["ops"]]
+            if not (len(caps) == 1 and caps[0] and caps[0]["local"] == 1 and not caps[0]["proj"]):
+                errs.append("the error closure does not capture the argument by value")
+            cb = facts.body(rv["closure"])
+            if cb is None:
+                errs.append("closure body not found")
+            else:
+                news = [(i, t) for i, t in cb.calls() if core.callee_name(t) == "new" and "TryFromBigIntError" in (core.callee(t) or "")]
+                if len(news) != 1:
+                    errs.append("the closure does not build TryFromBigIntError::new(..)")
+                else:
+                    fl = core.Flow(cb)
+                    rr = fl.roots_of_operand(news[0][1]["args"][0])
+                    if not any(r[0] == "param" and r[1] == 1 for r in rr):
+                        errs.append("TryFromBigIntError::new does not receive the captured argument")
+                    r0 = fl.roots_of_local(0)
+                    if not all(r[0] == "call" and r[1] == news[0][0] for r in r0):
+                        errs.append("the closure does not return the constructed error")
+            # result is map_err's result
+            rr = core.Flow(b).roots_of_local(0)
+            if not all(r[0] == "call" and r[1] == me[0][0] for r in rr):
+                errs.append("the result is not map_err's result")
+        if errs:
+            res.fail(Finding("R5-tryfrom-original", key, "; ".join(errs), b))
+        else:
+            res.ok("R5-tryfrom-original", key, {"err": "TryFromBigIntError::new(value) with the argument itself"})
+    res.count("by-value TryFrom impls", n)
+    if n < 22:
+        res.fail(Finding("R5-anchor-lost", "tryfrom", "only %d by-value TryFrom impls found (floor 22)" % n, file="src/bigint/convert.rs", line=0))
+    res.clause("C08: every by-value TryFrom<BigInt|BigUint> for a primitive returns the original big value in its error")
+
+
+def check_float_guard(ctx, res, config="all"):
+    facts = ctx.facts(config)
+    from .tests import tests_of, params_of, fate
+
+    bs = [b for b in facts.bodies if b.trait == "num_traits::FromPrimitive" and b.self_ty == "biguint::BigUint" and b.name == "from_f64"]
+    if len(bs) != 1:
+        res.fail(Finding("R5-anchor-lost", "from_f64", "BigUint::from_f64 not found", file="src/biguint/convert.rs", line=0))
+        return
+    b = bs[0]
+    tl, atoms = tests_of(b)
+    ok = False
+    neg_ok = False
+    for t in tl:
+        c = t.cond
+        if c is not None and c.kind == "call" and c.name == "is_finite" and params_of(c.args[0]) == {1}:
+            # non-finite edge returns None without any conversion work
+            reg = b.reachable(t.f, without_blocks=[t.t])
+            none = any(s["k"] == "assign" and s["place"]["local"] == 0 and s["rv"]["k"] == "aggregate" and s["rv"].get("variant") == "None" for x in reg for s in b.blocks[x]["stmts"])
+            work = any(b.blocks[x]["term"]["k"] == "call" and (core.callee_fn(b.blocks[x]["term"]) or {}).get("local") for x in reg)
+            others = [i for i, tt in b.calls() if i in b.live_blocks() and core.callee_name(tt) in ("integer_decode", "trunc", "shl_assign", "shr_assign", "from")]
+            if none and not work and all(b.edge_dominates((t.bb, t.t), i) for i in others):
+                ok = True
+        if c is not None and c.kind == "cmp" and c.op in ("Eq", "Ne") and -1 in tests.consts_of(c.b) and "integer_decode" in tests.calls_of(c.a):
+            neg_edge = t.t if c.op == "Eq" else t.f
+            reg = b.reachable(neg_edge, without_blocks=[t.f if c.op == "Eq" else t.t])
+            none = any(s["k"] == "assign" and s["place"]["local"] == 0 and s["rv"]["k"] == "aggregate" and s["rv"].get("variant") == "None" for x in reg for s in b.blocks[x]["stmts"])
+            if none:
+                neg_ok = True
+    if ok:
+        res.ok("C08-float-guard", "BigUint::from_f64:non-finite", {"guard": "!is_finite() -> None before decoding"})
+    else:
+        res.fail(Finding("C08-float-guard", "BigUint::from_f64:non-finite", "NaN / infinities are not rejected (None) before the float is decoded", b))
+    if neg_ok:
+        res.ok("C08-float-guard", "BigUint::from_f64:negative", {"guard": "sign == -1 -> None"})
+    else:
+        res.fail(Finding("C08-float-guard", "BigUint::from_f64:negative", "negative floats are not rejected with None", b))
+    res.clause("C08: BigUint::from_f64 returns None for NaN/infinities before decoding and for negative values")
